@@ -322,7 +322,7 @@ var wlExhaustion = Workload{
 					nfree++
 				}
 			}
-			for k := 0; k < 66000; k++ {
+			for k := 0; k < 66000 && k < nfree+80; k++ {
 				s.SNSendP(snref.SubscribeName(nextMid(), 0, fmt.Sprintf("n/%d", k)))
 				n++
 				if k%4096 == 4095 {
